@@ -5,6 +5,7 @@ import (
 	"fmt"
 	"math"
 	"sort"
+	"strconv"
 	"strings"
 
 	"github.com/sanonone/kektordb/pkg/core/distance"
@@ -94,6 +95,7 @@ func Observe(e *engine.Engine, u Universe) *Obs {
 		sort.Strings(walk)
 		o.Vals["idx/"+name+"/ids"] = strings.Join(walk, ",")
 		ids := map[string]bool{}
+		probes, words := map[string]bool{}, map[string]bool{}
 		for _, id := range walk {
 			ids[id] = true
 		}
@@ -107,6 +109,39 @@ func Observe(e *engine.Engine, u Universe) *Obs {
 			}
 			o.Vecs["idx/"+name+"/vec/"+id] = CopyVec(d.Vector) // VGet returns a view into the mmap arena
 			o.Vals["idx/"+name+"/meta/"+id] = CanonJSON(NormMeta(d.Metadata))
+			collectProbes(probes, words, NormMeta(d.Metadata))
+		}
+		// reads answered from the secondary indexes (inverted / numeric / text): equality
+		// filters on values that occur in the metadata, and text search on words that
+		// occur in string fields. Compared before / after like everything else.
+		for i, pr := range sortedKeys(probes) {
+			if i >= 24 {
+				break
+			}
+			ids, err := e.VFilter(name, pr, 10000)
+			if err != nil {
+				o.Vals["idx/"+name+"/filter/"+pr] = "ERR " + err.Error()
+				continue
+			}
+			sort.Strings(ids)
+			o.Vals["idx/"+name+"/filter/"+pr] = strings.Join(ids, ",")
+		}
+		if info.TextLanguage != "" {
+			for i, w := range sortedKeys(words) {
+				if i >= 10 {
+					break
+				}
+				res, _ := e.DB.FindIDsByTextSearch(name, "content", w)
+				var parts []string
+				if h, ok := idx.(*hnsw.Index); ok {
+					for _, r := range res {
+						ext, _ := h.GetExternalID(r.DocID)
+						parts = append(parts, fmt.Sprintf("%s:%.9g", ext, r.Score))
+					}
+				}
+				sort.Strings(parts)
+				o.Vals["idx/"+name+"/text/"+w] = strings.Join(parts, ",")
+			}
 		}
 	}
 	// graph: every stored version ...
@@ -272,4 +307,55 @@ func sameVec(cfg IndexCfg, a, b []float32) bool {
 		return false
 	}
 	return true
+}
+
+// collectProbes derives equality filters ("key = literal") and text-search words from one
+// metadata map: scalars and list elements of every key; words of the "content" field.
+func collectProbes(probes, words map[string]bool, meta map[string]any) {
+	lit := func(v any) (string, bool) {
+		switch x := v.(type) {
+		case string:
+			if x == "" || strings.ContainsAny(x, "'\"=<>!()") || len(x) > 40 {
+				return "", false
+			}
+			lw := " " + strings.ToLower(x) + " "
+			if strings.Contains(lw, " and ") || strings.Contains(lw, " or ") {
+				return "", false
+			}
+			return "'" + x + "'", true
+		case float64:
+			s := strconv.FormatFloat(x, 'f', -1, 64)
+			if len(s) > 18 {
+				return "", false
+			}
+			return s, true
+		case bool:
+			return strconv.FormatBool(x), true
+		}
+		return "", false
+	}
+	for k, v := range meta {
+		if strings.HasPrefix(k, "_") || strings.ContainsAny(k, " '\"=<>!") {
+			continue
+		}
+		vals := []any{v}
+		if l, ok := v.([]any); ok {
+			vals = l
+		}
+		for _, x := range vals {
+			if s, ok := lit(x); ok {
+				probes[k+" = "+s] = true
+			}
+		}
+		if k == "content" {
+			if str, ok := v.(string); ok {
+				for _, w := range strings.Fields(str) {
+					if len(w) <= 20 {
+						words[strings.ToLower(strings.Trim(w, ".,;:!?\"'()"))] = true
+					}
+				}
+			}
+		}
+	}
+	delete(words, "")
 }
